@@ -25,6 +25,17 @@ def analyse(prop, root='/repo', tier='quick', seed=0, program=None):
     R.stats['modules'] = len(P.mods)
     R.stats['classes'] = len(P.classes)
     R.stats['functions'] = sum(1 for _ in P.all_units())
+    log = getattr(P, 'normalisation_log', None)
+    if log is not None:
+        # what sa.normalise folded before the rules ran (behaviour-preserving rewritings; see its docstring)
+        kinds = {}
+        for k, where, what in log:
+            kinds[k] = kinds.get(k, 0) + 1
+        R.extra['canonical_form'] = {
+            'rewritings': kinds,
+            'symbols_not_in_the_reference_decomposition': P.new_symbols[:40],
+            'reference_symbols_absent': P.missing_symbols[:40],
+            'folded_helpers': sorted({what for k, where, what in log if k in ('inline-helper', 'absorbed-helper')})[:40]}
     mod.run(P, R)
     return R
 
